@@ -2,7 +2,7 @@
 From Coq Require Import Sorting.Permutation.
 From LC Require Import Lib.Bytes Lib.Lex Lib.Fields Lib.PathM Gen.Consts
   Model.MountInfo Model.FsTree Model.Kernel Model.Layers
-  Proofs.MountInfoP Proofs.KernelP Proofs.MonadP Proofs.ProbeP Proofs.RunP Proofs.UmountP Proofs.C03P
+  Proofs.MountInfoP Proofs.KernelP Proofs.MonadP Proofs.ProbeP Proofs.RunP Proofs.UmountP Proofs.UmountAllP Proofs.C03P
   Cases.LC Cases.C04.
 Import LC LCS.
 Open Scope N_scope.
@@ -377,3 +377,59 @@ Proof.
 Qed.
 
 End Umount1.
+
+(* ------------------------------------------------------------------ umount -all *)
+Section UmountAll.
+Variables (c : cfgT) (w : wobs) (e : env) (um : users_map).
+Hypothesis He : plain_env e = true.
+Hypothesis Hwf : wf_table (ks_tab (wo_ks w)) = true.
+Hypothesis Hl : wf_layers c (layers_on_disk c (wo_fs w)) = true.
+Hypothesis Hap : roots_apart c (layers_on_disk c (wo_fs w)) = true.
+
+Let m := layers_on_disk c (wo_fs w).
+Let tab := ks_tab (wo_ks w).
+
+Lemma known_RL4 x l : known c tab um x l -> RL4 c um x l.
+Proof.
+  intros (Hs & Ho & He0 & Hne). split; [exact Hs|].
+  destruct (N.eq_dec (l_state x) st_error) as [E|E].
+  - destruct (He0 E) as (_ & K & _). rewrite K. split; [intros t []|]. intros _. now left.
+  - destruct (Hne E) as (K1 & K2 & _). split.
+    + intros t Ht. rewrite K1 in Ht. eapply kmounts0_below; eauto.
+    + intros Hb. right. rewrite K2. apply in_mount_dirs_mb0. exact Hb.
+Qed.
+
+Theorem C04_umount_all_proof : C04.step_spec c w (view_of_model c w e (CUmount [] true) um) = true.
+Proof.
+  pose proof (plain_env_plain e He) as Hp. destruct (wf_layers_spec _ _ Hl) as [NDn Hgood].
+  assert (Hlog : exists o st iss, run e c um (CUmount [] true) (world_of w) = (o, st)
+                  /\ s_log st = rev (umlog e iss) /\ Forall (tgt_ok c um m) iss).
+  { destruct (run_known c w e um Hwf Hl (CUmount [] true) eq_refl) as [R|(ld & HF & R)].
+    - exists Fail, (s0_of (world_of w)), []. split; [exact R|]. split; [reflexivity|constructor].
+    - cbn [cmd_body] in R. rewrite unmount_all_eq in R. unfold bind in R.
+      destruct (light_loop e c um m Hp NDn (rev (ld_order ld)) ld false (s0_of (world_of w)))
+        as (o & s' & iss & G & Hlg & Htg).
+      + eapply forall2_impl_in; [exact HF|]. intros x l _. apply known_RL4.
+      + exact Hwf.
+      + rewrite G in R. cbn [s0_of s_log] in Hlg. rewrite app_nil_r in Hlg.
+        destruct o as [[b0 ld']| | | |]; cbn [omap] in R.
+        * destruct b0; cbn [fst snd] in R; eexists _, s', iss; (split; [exact R|]); auto.
+        * eexists _, s', iss; (split; [exact R|]); auto.
+        * eexists _, s', iss; (split; [exact R|]); auto.
+        * eexists _, s', iss; (split; [exact R|]); auto.
+        * eexists _, s', iss; (split; [exact R|]); auto. }
+  destruct Hlog as (o & st & iss & R & Hlg & Htg).
+  rewrite (view_of_run _ _ _ _ _ _ _ R). unfold C04.step_spec. cbn [v_env v_cmd v_users v_log]. rewrite He. cbn [negb].
+  rewrite Hlg, rev_involutive, umount_targets_umlog. fold m. fold tab.
+  apply forallb_forall. intros x Hx.
+  destruct (existsb (in_mount_dirs c) (users_of um (l_name x))) eqn:Eb; [|now rewrite orb_true_r].
+  cbn [negb orb]. rewrite orb_false_r. apply negb_true_iff.
+  apply existsb_false_forall. intros t Ht. rewrite Forall_forall in Htg.
+  destruct (Htg t Ht) as (y & Hy & Hyb & Hyt).
+  rewrite at_or_under_below by (apply good_root_spec, (Hgood x Hx)).
+  destruct (at_or_below (build_path c x) t) eqn:Ext; [|reflexivity]. exfalso.
+  apply (roots_apart_spec c m x y t Hap Hx Hy); auto.
+  intros En. unfold ublocked in Hyb. rewrite <- En in Hyb. congruence.
+Qed.
+
+End UmountAll.
